@@ -624,6 +624,12 @@ def is_(run, a, b, node):
             return a.t == b.t
         if a.ty is TBool and b.ty is TBool:
             return a.t == b.t
+        if a.ty is TBool and b.ty is TAny:
+            a, b = b, a
+        if a.ty is TAny and b.ty is TBool:
+            # `v is True` / `v is False`: the bool singletons
+            P = TAny.sort()
+            return z3.And(P.is_BoolV(a.t), P.b(a.t) == b.t)
         if isinstance(a.ty, TOpt) and isinstance(a.ty.inner, TRef):
             return eq_terms(run, a, b)
     if isinstance(a, Conc) and isinstance(b, Conc):
